@@ -178,3 +178,17 @@ CHECKS["C15"] = dict(
           "(each with probability 1/4), adds fresh fields, re-adds previously dropped fields (same name and expression), permutes the "
           "order and in 1/3 of the cases changes or removes the WHERE; SELECT * after half of the alterations and at the end, compared with "
           "the reference in which every field aggregates the points accepted since it was (last) added. non-trivial: >= 1 alteration and >= 3 points"))
+
+CHECKS["C19"] = dict(
+    stages=[dict(sub="c19", quick=1, thorough=1, shards=1)],
+    exhaustive=True,
+    assumptions=["gRPC on 127.0.0.1 with the real rpcserver.PrepareServer/rpc.Dial in front of a mock DB that records which DB methods were reached",
+                 "web.Configure on an httptest server; session cookies produced with the same securecookie keys (Opts.HashKey/BlockKey), forged ones with other keys; "
+                 "the GitHub organisation call is answered by a stub http.DefaultTransport (member / not member / error)",
+                 "'served' = the guarded DB method was reached (RPC) / the HTTP status is neither 307 nor 403 (web)"],
+    trusted=["securecookie decodes only what was encoded under the same keys (external library)", "the srcfacts guard-table translation (first-statement pattern of each handler, call reachability within web/*.go)"],
+    what_fails="an endpoint that discloses data served a caller without valid credentials (or the guard tables / decision functions no longer match the code)",
+    rule=("the complete lattice: RPC {server password unset,set} x {no, wrong, right client password} x {insert, query, follow, remote-query registration} = 24 calls; "
+          "web {OAuth off,on} x {static token unset,set} x {no, wrong, right header} x {no cookie, garbage, forged, valid future member / non-member / org error, valid past member} x "
+          "{/run, /async, /immediate, /cached/<id>} = 336 requests; each observed decision is compared with the model's decision functions through the regenerated guard tables. "
+          "non-trivial: credentials are configured"))
